@@ -162,7 +162,7 @@ def gen_case(rng, quick=True):
     else:
         ns = None
     return {'doc': d, 'lib': lib, 'form': form, 'frag': frag, 'ns': ns, 'pns': rng.choice([0, 1, 1, 2, 3]),
-            'v31': rng.random() < 0.5}
+            'v31': rng.random() < 0.5, 'popt': rng.choice([0, 0, 1, 2, 3])}
 
 
 # --------------------------------------------------------------------------------------
@@ -301,7 +301,7 @@ def gen_libcase(rng):
         a = ''.join(rng.choice('ab1 2') for _ in range(rng.randint(0, 8)))
         b = rng.choice(['[0-9]+', '([a-z])([0-9])', 'a|b', ' '])
     return {'libdoc': {'kind': kind, 'a': a, 'b': b}, 'doc': None, 'lib': lib, 'form': 'lib:' + kind, 'frag': None,
-            'ns': None, 'pns': rng.choice([0, 1, 2]), 'v31': True}
+            'ns': None, 'pns': rng.choice([0, 1, 2]), 'v31': True, 'popt': rng.choice([0, 0, 1, 2, 3])}
 
 
 def wrapper_tokens(kids_text, children, lib, namespaces, toks, kinds):
@@ -508,12 +508,20 @@ def run_impl_inner(case, parsed):
 
     # ONE parser instance per (class, namespaces) for the whole run, and ONE parsed token per fixed expression:
     # the same parser parses every path text, the same `path(.)` token is evaluated on every node of every tree
-    pkey = tuple(sorted(pns.items()))
+    # constructor options of the reading parser: 0 defaults, 1 strict=False, 2 another default_namespace=,
+    # 3 both (a generated path must read the same way and select the same node under all of them)
+    popt = int(case.get('popt', 0))
+    pkw = {}
+    if popt in (1, 3):
+        pkw['strict'] = False
+    if popt in (2, 3):
+        pkw['default_namespace'] = 'urn:parser-default'
+    pkey = (popt,) + tuple(sorted(pns.items()))
 
     def parser_of(P):
         k = (P.__name__, pkey)
         if k not in _PARSERS:
-            _PARSERS[k] = P(namespaces=dict(pns))
+            _PARSERS[k] = P(namespaces=dict(pns), **pkw)
         return _PARSERS[k]
 
     def token_of(P, expr):
@@ -792,7 +800,8 @@ def compare(run: Run, cases: list, count=True) -> None:
     for (case, line, kinds, parsed), ans in zip(prepared, answers):
         xml = parsed[0]
         base = {'xml': xml, 'lib': case['lib'], 'form': case['form'], 'frag': case['frag'], 'ns': case['ns'],
-                'parser_ns': case['pns'], 'v31_first': case['v31'], 'doc': case['doc']}
+                'parser_ns': case['pns'], 'v31_first': case['v31'], 'doc': case['doc'],
+                'parser_options': case.get('popt', 0)}
         if case.get('libdoc'):
             base['libdoc'] = case['libdoc']
         if ans.startswith('bad-'):
@@ -919,6 +928,7 @@ def compare(run: Run, cases: list, count=True) -> None:
                     nontrivial=positions_gt1 > 0, sample_every=89)
             st.count(f"form:{case['lib']}/{case['form']}/frag={case['frag']}")
             st.count(f"parser-namespaces-mode:{int(case['pns'])}")
+            st.count(f"parser-options:{int(case.get('popt', 0))}")
             st.count('root:' + ('document' if parsed[3] else 'element'))
             st.count(f'nodes={min(len(kinds), 60) // 10 * 10}+')
             st.count('etree-paths', len(ie))
@@ -959,6 +969,72 @@ def orphan_checks(run: Run) -> None:
                                       tags=tags, site='xpath_nodes.py path (parent is None)'))
 
 
+SCHEMA_XSD = """<xs:schema xmlns:xs="http://www.w3.org/2001/XMLSchema" targetNamespace="urn:t" xmlns:t="urn:t" elementFormDefault="qualified">
+<xs:element name="root"><xs:complexType><xs:sequence>
+ <xs:element name="a" type="xs:int" maxOccurs="unbounded"/>
+ <xs:element name="b"><xs:complexType><xs:sequence><xs:element name="a" type="xs:string"/><xs:element ref="t:other"/></xs:sequence><xs:attribute name="k" type="xs:int"/></xs:complexType></xs:element>
+ <xs:element name="a" type="xs:int"/>
+ <xs:element ref="t:other"/>
+ <xs:element ref="t:rec"/>
+</xs:sequence><xs:attribute name="id" type="xs:ID"/></xs:complexType></xs:element>
+<xs:element name="other" type="xs:string"/>
+<xs:element name="rec"><xs:complexType><xs:sequence><xs:element ref="t:rec" minOccurs="0"/><xs:element name="leaf" type="xs:int"/></xs:sequence></xs:complexType></xs:element>
+</xs:schema>"""
+
+
+def schema_checks(run: Run) -> None:
+    """Schema component trees are outside the property's quantifier (docs/C14.md); since fix-c14-5 the element
+    nodes iterated below a schema node form a tree whose `path` is '/' + steps, so it is run through the same
+    model: text of the path, what it selects, distinctness.  (The schema node itself, like a parent-less
+    element, is not selected by '/': not compared.)"""
+    try:
+        import xmlschema
+    except Exception:
+        run.notes.append('xmlschema not importable: schema component paths not checked')
+        return
+    from elementpath import XPathContext, get_node_tree
+    from elementpath.xpath30 import XPath30Parser
+    case = {'schema': 'SCHEMA_XSD (harness/c14.py)'}
+    try:
+        tree = get_node_tree(xmlschema.XMLSchema(SCHEMA_XSD))
+        nodes = list(tree.iter())
+        index = {id(n): i for i, n in enumerate(nodes)}
+
+        def toks(n, out):
+            ns, loc = clark(n.name or '')
+            kids = [c for c in n.children]
+            out.extend(['E', tk(ns), tk(loc), '0', '0', str(len(kids))])
+            for c in kids:
+                toks(c, out)
+        t = ['D', str(len(tree.children))]
+        for c in tree.children:
+            toks(c, t)
+        ans = run.driver('C14', ['root=doc tree=' + ','.join(t)])[0]
+        mrecs, srecs, *_ = parse_answer(ans)
+        if len(srecs) != len(nodes):
+            run.disagree(Disagreement(case, f'{len(nodes)} nodes iterated', None, spec=f'{len(srecs)} nodes in the children lists',
+                                      what='schema-tree-shape'))
+            return
+        for k, (n, srec) in enumerate(zip(nodes, srecs)):
+            run.stats.count('schema-component-node')
+            try:
+                p = n.path
+                sel = ','.join(str(index.get(id(x), 'X')) for x in
+                               XPath30Parser(namespaces={'t': 'urn:t'}).parse(p).select(XPathContext(tree))) or '-'
+            except Exception as e:
+                p, sel = err_text(e), ''
+            want_sel = srec[2] if k else sel
+            if (p, sel) != (srec[0], want_sel):
+                run.disagree(Disagreement(dict(case, node=k, name=n.name), f'{p} selects {sel}', None,
+                                          spec=f'{srec[0]} selects {want_sel}', what='schema-component-path',
+                                          site='xpath_nodes.SchemaElementNode.path'))
+        run.stats.case(case, nontrivial=True)
+    except DriverError:
+        raise
+    except Exception as e:
+        run.disagree(Disagreement(case, 'schema component tree: ' + err_text(e), None, spec='no-problem', what='impl-problem'))
+
+
 def E(loc, kids=(), pfx='', decls=None, attrs=()):
     return ['e', pfx, loc, dict(decls or {}), [list(a) for a in attrs], list(kids)]
 
@@ -967,9 +1043,9 @@ def P(t, d='d'):
     return ['p', t, d]
 
 
-def mk(doc_root, lib='lxml', form='doc', frag=None, ns=None, pre=(), post=(), pns=False, v31=False):
+def mk(doc_root, lib='lxml', form='doc', frag=None, ns=None, pre=(), post=(), pns=False, v31=False, popt=0):
     return {'doc': {'pre': list(pre), 'root': doc_root, 'post': list(post)}, 'lib': lib, 'form': form,
-            'frag': frag, 'ns': ns, 'pns': pns, 'v31': v31}
+            'frag': frag, 'ns': ns, 'pns': pns, 'v31': v31, 'popt': popt}
 
 
 def corpus():
@@ -996,6 +1072,8 @@ def corpus():
                                   decls={'p': 'urn:q'}), E('a', pfx='q')],
             decls={'p': 'urn:p', 'q': 'urn:q', '': 'urn:p'}, attrs=[('p', 'k'), ('q', 'k'), ('', 'k')])
     for pns in (0, 1, 2, 3):
+        out.append(mk(reb, 'lxml', 'elem', None, None, pns=1, popt=pns))
+        out.append(mk(design, 'et', 'doc', None, {'p': 'urn:p', '': 'urn:d'}, pns=pns, popt=3 - pns))
         out.append(mk(reb, 'lxml', 'doc', None, None, pns=pns))
         out.append(mk(reb, 'et', 'elem', None, {'p': 'urn:p', '': 'urn:q'}, pns=pns, v31=True))
     return out
@@ -1032,6 +1110,7 @@ def correspond(run: Run) -> None:
         'None/True/False) x parser namespaces on/off x 3.0/3.1 parser order. Every node of every tree is evaluated. '
         'distinct_nontrivial = distinct (xml, lib, form, fragment) cases in which at least one generated step has a position > 1')
     orphan_checks(run)
+    schema_checks(run)
     for i in range(0, len(cases), 4000):      # few driver calls: `lake env` may wait for other builds
         compare(run, cases[i:i + 4000])
 
@@ -1123,7 +1202,7 @@ def case_of(d: Disagreement):
     if not isinstance(c, dict) or c.get('doc') is None:
         return None
     return {'doc': c['doc'], 'lib': c['lib'], 'form': c['form'], 'frag': c['frag'], 'ns': c['ns'],
-            'pns': c.get('parser_ns', False), 'v31': c.get('v31_first', False)}
+            'pns': c.get('parser_ns', False), 'v31': c.get('v31_first', False), 'popt': c.get('parser_options', 0)}
 
 
 def shrink(d: Disagreement) -> Disagreement:
